@@ -220,11 +220,14 @@ def _model_case(args):
             name = None if not isinstance(cost_arg, dict) else 'x'
             from plinio.methods import PIT, SuperNet
             from plinio.methods.mps import MPS, MPSType, get_default_qinfo
+            # (half of the wrappers are built from an example of 2..5 samples: the cost depends on the architecture only)
+            nb = rng.choice([2, 3, 5])
+            skw = {'input_shape': shape} if rng.random() < .5 else {'input_example': torch.randn((nb,) + tuple(shape))}
             if method.startswith('pit'):
-                w = PIT(net, input_shape=shape, cost=cost_arg, full_cost=spec['full_cost'],
+                w = PIT(net, cost=cost_arg, full_cost=spec['full_cost'], **skw,
                         exclude_names=('cx',) if method == 'pitcat' else ())
             elif method == 'sn':
-                w = SuperNet(net, input_shape=shape, cost=cost_arg, full_cost=spec['full_cost'])
+                w = SuperNet(net, cost=cost_arg, full_cost=spec['full_cost'], **skw)
             elif method == 'odimo':
                 from plinio.methods.odimo_mps import ODiMO_MPS
                 from plinio.methods.odimo_mps.odimo_mps import get_default_qinfo as odimo_qinfo
@@ -233,7 +236,7 @@ def _model_case(args):
                     ODiMO_MPS(net, input_shape=shape, qinfo=qi, cost={'x': cs, 'p': pc.params_bit})
             else:
                 per_ch = method == 'mpsc'
-                w = MPS(net, input_shape=shape, cost=cost_arg, full_cost=spec['full_cost'],
+                w = MPS(net, cost=cost_arg, full_cost=spec['full_cost'], **skw,
                         qinfo=get_default_qinfo((2, 4, 8), (8,)),
                         w_search_type=MPSType.PER_CHANNEL if per_ch else MPSType.PER_LAYER)
             w.train()
